@@ -48,7 +48,9 @@ def _prepare(c):
     c.assume("a process restart is emulated in-process: the codec's global upgrade schedule is reset to its initial values and the "
              "application object re-created on the same databases; on the chain whose stored upgrade height is 0 chainsim's codec "
              "heights (2/1) stand for 'past the hard-coded codec upgrade height' and are re-installed after a restart (never the feature map)")
-    c.assume("upgrade versions are kept <= the application version and well-formed (the gov BeginBlocker exits the process otherwise)")
+    c.assume("upgrade versions are kept <= the application version and well-formed (the gov BeginBlocker exits the process otherwise); "
+             "version upgrades name a past height (2 or 3) so that the stored old-upgrade height never exceeds the current height "
+             "(small-number stand-in for heights beyond the hard-coded codec upgrade height)")
     init = os.path.join(c.scratch, "gov-init.json")
     if not os.path.exists(init):
         vf.run_harness(BIN, ["init-state", "-out", init], env={"VERIF_SEED": c.seed})
